@@ -31,6 +31,7 @@ type Ctx struct {
 	memo  map[string]Term
 	notes map[string]bool // abstraction notes collected while generating VCs
 	pow10Max int
+	inQuant  int
 }
 
 func NewCtx() *Ctx { return &Ctx{memo: map[string]Term{}, notes: map[string]bool{}} }
@@ -273,6 +274,7 @@ const prelude = `(set-option :produce-models true)
 (declare-fun bitlenf (Int) Int)
 (declare-fun tdivf (Int Int) Int)
 (declare-fun tremf (Int Int) Int)
+(declare-fun mulf (Int Int) Int)
 (declare-fun strlen (Int) Int)
 (declare-fun uf1 (Int Int) Int)
 (declare-fun uf2 (Int Int Int) Int)
